@@ -120,6 +120,11 @@ def gen_case(rng: Rng, i: int, tier: str):
             m["attrs"] = a
         else:
             m["attrs"] = None
+    ra = rng.sub("attr0")
+    for m in members:
+        # attributes that are defined and zero (no ARCHIVE bit, as some writers store them): defined is not the same as non-zero
+        if m["kind"] == "file" and m.get("attrs") is not None and ra.chance(0.12):
+            m["attrs"] = 0
     # physical layout
     data_idx = [k for k, m in enumerate(members) if m["kind"] in ("file", "symlink") and (m.get("content", {}).get("len", 1) > 0)]
     folders = []
